@@ -23,7 +23,11 @@ R  races       the operations of two or three helper processes run CONCURRENTLY:
 L  live        real masters with a pid file (sync, gthread; thorough: gevent, eventlet) taken through
                boot / TTOU / TTIN / HUP / max_requests recycling / worker abort on timeout / SIGKILL of a
                worker / a second instance on the same file / TERM, and a restart over the stale file of
-               a SIGKILLed server (checks/c17_live.py).
+               a SIGKILLed server; upgrade histories: SIGUSR2 while the directory the server was started
+               from is gone (the forked re-exec child fails - the pid file and the workers of the running
+               master are not its to touch), and SIGUSR2, SIGHUP to the NEW master while the old one lives,
+               TERM / QUIT to the new master: "<pidfile>" names the old master for as long as it runs,
+               "<pidfile>.2" never does (checks/c17_live.py).
 
 Tiers.  quick: every sequence up to length 3 (length 4 without model-no-ops for the plain two-instance
 layout) for 2 instances x {both on one path, second on "<path>.2"} x {root/root, root/nobody,
@@ -113,6 +117,12 @@ ASSUMPTIONS = [
     "with PermissionError and leaving the target untouched is accepted (counted in reach.crash_restricted_refused_eperm)",
     "live part: between events the pid file may be absent for a moment (reload() unlinks and re-creates it); whenever it "
     "is read it must be absent or hold exactly the master's pid, at the quiescent point after every event it must exist",
+    "live part, upgrade histories: while the old master runs, <pidfile> is its file (same rule as above) and "
+    "'<pidfile>.2' must never hold the old master's pid; what becomes of a new master that is sent SIGHUP before its "
+    "promotion is not judged (the unchanged one gives up: the file it wants names another live process), nor is a "
+    "'<pidfile>.2' left behind by a new master that has gone; after a re-exec attempt that fails in the forked child "
+    "(start directory gone) the running master must still have its pid file AND its workers - a child that stops "
+    "them has run the master's exit path, the same path that removes the pid file",
     "a deviation is reported only if it reproduces in two further executions of the same history with fresh processes "
     "(pid_max is 32768 here, so a 'dead' pid may be reused by an unrelated process); a non-reproducing one is counted in "
     "info.transient_deviation, a partly reproducing one makes the run inconclusive",
